@@ -597,7 +597,8 @@ fn wrap_case<B: Backend>(cx: &mut Ctx, rng: &mut Prng, pairs: &[keys::Pair]) {
     // PBKW: one reference blob per case under the SAME password and the SAME salt for every case of the backend; consecutive cases
     // differ in their cost parameters only, so a derived key remembered under (password, salt) would be the wrong one
     if kind == "pw" {
-        let pw = b"same password for every cost".to_vec();
+        // (longer than the 128-byte block of HMAC-SHA-384: PBKDF2 hashes such a password first, it does not truncate it)
+        let pw = b"same password for every cost ".repeat(6);
         let mut inp = base.clone();
         inp.insert("pw".into(), pw.clone());
         inp.insert("s".into(), vec![0x5a; c["salt_len"].as_u64().unwrap() as usize]);
